@@ -47,6 +47,21 @@ def run(db, rep, feat, tier):
         for i in rr.instances:
             i["key"] = "R8." + i["key"]
             i["rule"] = rr.id
+    # the analysis tracks `architecture.stack_pointer()`: that scalar must be the one the lifter writes (C20.R3), and the
+    # solver it runs on must re-schedule a location whenever its input may have changed (C09.R2/R5)
+    import props.c20 as c20
+    import props.c09 as c09
+    saved_expl = rep.explanation
+    for pref, fn_ in (("R9.", lambda: c20.run(db, rep, feat, tier)), ("R10.", lambda: (c09.r2(db, rep), c09.r5(db, rep, {})))):
+        before = len(rep.rules)
+        fn_()
+        for rr in rep.rules[before:]:
+            rr.id = pref + rr.id
+            rr.floors = []
+            for i in rr.instances:
+                i["key"] = pref + i["key"]
+                i["rule"] = rr.id
+    rep.explanation = saved_expl
     r7 = rep.rule("R7", "K8", "no undischarged panic site reachable from stack_pointer_offsets()")
     panics.reach_rule(db, rep, r7, ["analysis::stack_pointer_offsets::stack_pointer_offsets"],
                       scope_prefixes=("analysis::stack_pointer_offsets", "<analysis::stack_pointer_offsets"))
